@@ -44,7 +44,7 @@ Act ==
     [] E.op = "rekey"      -> RekeyJob(H)
 
 TrInit == Init /\ tid \in 1..N /\ l = 1
-TrNext == l <= Len(Ev) /\ Act /\ l' = l + 1 /\ UNCHANGED tid
+TrNext == l <= Len(Ev) /\ Act /\ l' = l + 1 /\ UNCHANGED <<tid, steps>>
 
 (* evaluated in every state reached: event Ev[l - 1] has just been applied *)
 Done   == Ev[l - 1]
@@ -62,7 +62,8 @@ Track ==
   \/ /\ TLCSet(tid, [l |-> l - 1])
      /\ (TLCGet(N + tid).l = 0 /\ ~(PostOk /\ ResOk))
           => TLCSet(N + tid, [l |-> l - 1, resok |-> ResOk, postok |-> PostOk, resjson |-> ResJsonOk, postjson |-> PostJsonOk,
-                              res |-> last.res, files |-> View(FileSeq), depth |-> depth, dev |-> SetToSeq(dev \cup HypoDev)])
+                              res |-> last.res, files |-> View(FileSeq), depth |-> depth,
+                              own |-> (depth > 0 /\ last.op = "read" /\ writers[last.h[1]] = {last.h}), dev |-> SetToSeq(dev \cup HypoDev)])
      /\ (TLCGet(2 * N + tid).l = 0 /\ Failing # <<>>)
           => TLCSet(2 * N + tid, [l |-> l - 1, which |-> Failing, files |-> View(FileSeq), depth |-> depth, dev |-> SetToSeq(dev \cup HypoDev)])
 
